@@ -18,7 +18,7 @@ CHUNK = {"quick": 10, "thorough": 10}
 RULE = ("(signal kind, lookback N, number of observations capped at N+2, window state empty / warming up / exactly "
         "full / rolled over, universe kind, whether the asset entered late)")
 
-ASSETS = ["EQ:AAA", "EQ:BBB", "EQ:CCC", "EQ:DDD"]
+ASSETS = ["EQ:AAA", "EQ:AAA_B", "EQ:CCC", "EQ:CC"]     # one symbol is another plus "_<suffix>", one a prefix
 KINDS = ("mom", "sma", "vol")
 
 
